@@ -36,7 +36,9 @@ RECURSIVE Walk(_, _, _, _), TryStarts(_, _, _, _, _, _, _)
 TryStarts(cx, k, cands, i, r, hy, acc) ==
   IF i > Len(cands) THEN WalkFail
   ELSE LET p == cands[i]
-           res == Walk(cx, k + 1, p + Len(r), Append(acc, <<p, p + Len(r), hy>>))
+           \* a slice may end in a space only at the positions cx.spaceok allows (the space-at-end clause of C01)
+           endok == Len(r) = 0 \/ r[Len(r)] # SP \/ (p + Len(r)) \in cx.spaceok
+           res == IF endok THEN Walk(cx, k + 1, p + Len(r), Append(acc, <<p, p + Len(r), hy>>)) ELSE WalkFail
        IN IF res.ok THEN res ELSE TryStarts(cx, k, cands, i + 1, r, hy, acc)
 Walk(cx, k, cur, acc) ==
   IF k > Len(cx.lines) THEN (IF AllSkip(cx.mask, cur, Len(cx.t) + 1) THEN [ok |-> TRUE, sl |-> acc] ELSE WalkFail)
@@ -58,9 +60,6 @@ Walk(cx, k, cur, acc) ==
                     THEN LET r2 == SubSeq(r, 1, Len(r) - 1) IN TryStarts(cx, k, Starts(cx.t, cx.mask, cur, r2), 1, r2, TRUE, acc)
                     ELSE WalkFail
 
-TextWalk(e) ==
-  Walk([t |-> e.text, mask |-> SkipMask(e.text, e.o.crlf), lines |-> e.lines,
-        inds |-> [k \in 1..Len(e.lines) |-> IndentOfK(e.o, k)], hyins |-> CustomSplitter(e.o), strict |-> TRUE], 1, 1, <<>>)
 
 (* ---------- intended fragments of a paragraph (vocabulary for the verdicts) ---------- *)
 UaxCutsDecl(s, opps) ==
@@ -95,6 +94,13 @@ SpaceException(e, prs, q) ==
                   ws == IntendedSplit(ParaText(e, prs, j), e.o, ParaOpps(e, j))
               IN \E k \in 1..Len(ws) : ws[k].w > SubWidth(e.o) /\ ws[k].a + base < q /\ q < ws[k].e + base
 
+\* positions q (exclusive slice ends) at which a slice may end in a space
+SpaceOkSet(e) == LET prs == ParaRanges(e) IN {q \in 2..(Len(e.text) + 1) : e.text[q - 1] = SP /\ SpaceException(e, prs, q)}
+TextWalk(e) ==
+  Walk([t |-> e.text, mask |-> SkipMask(e.text, e.o.crlf), lines |-> e.lines,
+        inds |-> [k \in 1..Len(e.lines) |-> IndentOfK(e.o, k)], hyins |-> CustomSplitter(e.o), strict |-> TRUE,
+        spaceok |-> SpaceOkSet(e)], 1, 1, <<>>)
+
 C01ok(e, wk) ==
   /\ wk.ok
   /\ \A k \in 1..Len(e.lines) :
@@ -120,7 +126,14 @@ C02Line(e, wk, prs, k) ==
                       j > 0 /\ LET base == prs[j][1] - 1
                                    fs == IntendedSplit(ParaText(e, prs, j), e.o, ParaOpps(e, j))
                                IN \A f \in 2..Len(fs) : ~(p < fs[f].a + base /\ fs[f].a + base < q)
-C02ok(e, wk) == LET prs == ParaRanges(e) IN \A k \in 1..Len(e.lines) : C02Line(e, wk, prs, k)
+\* a line whose indent alone is wider than the width while everything after the indent has zero width (several
+\* zero-width fragments without whitespace between them, e.g. "\n\n" under the CRLF line ending with the Unicode
+\* separator): reported separately (known finding K2)
+ZeroUnderWideIndent(e, k) ==
+  LET ln == e.lines[k].s ind == IndentOfK(e.o, k) IN
+  StartsWith(ln, ind) /\ DW(ind) > e.o.width /\ DW(SubSeq(ln, Len(ind) + 1, Len(ln))) = 0
+C02ok(e, wk, special) ==
+  LET prs == ParaRanges(e) IN \A k \in 1..Len(e.lines) : (ZeroUnderWideIndent(e, k) = special) => C02Line(e, wk, prs, k)
 
 (* ---------- per-paragraph view (uses the line-count hint pl) ---------- *)
 RECURSIVE PrefixSumsAcc(_, _, _)
@@ -212,7 +225,8 @@ Judge_wrap(e) ==
   On("C08", << Chk("C08", "VERDICT", "a line does not start with the configured indent", C08ok(e)) >>) \o
   On("C01", << Chk("C01", "VERDICT", "lines are not indent + in-order slices of the input (or a needlessly owned / space-terminated slice)", C01ok(e, wk)) >>) \o
   On("C02", IF e.o.alg = "ff" /\ TextWellFormed(e) /\ ~CustomSplitter(e.o)
-            THEN << Chk("C02", "VERDICT", "a first-fit line is wider than the width although it is not a single unbreakable fragment", C02ok(e, wk)) >>
+            THEN << Chk("C02", "VERDICT", "a first-fit line is wider than the width although it is not a single unbreakable fragment", C02ok(e, wk, FALSE)),
+                    Chk("C02", "VERDICT", "a first-fit line is wider than the width although it is not a single unbreakable fragment (indent alone wider than the width, zero-width fragments after it)", C02ok(e, wk, TRUE)) >>
             ELSE <<>>) \o
   On("C07", IF e.o.alg = "ff" /\ usable
             THEN << Chk("C07", "VERDICT", "first-fit lines are not the greedy arrangement of the paragraph's fragments", C07text(e)) >>
